@@ -145,3 +145,77 @@ func checkIDStringHeader(c *Ctx, r *Report) {
 	})
 	r.Check(nStores > 0 && okStores, name+"|Identity", posSt, "Identity is the decoder's result", "the record's Identity is not (only) the string the ID-string decoder returned")
 }
+
+// checkDCMIVersionGuards: the layout of a Get DCMI Capabilities Info parameter depends on the
+// DCMI specification conformance the BMC reports — major version (byte 0) and minor version
+// (byte 1) of the response — and not on the parameter revision (byte 2), which numbers the
+// revisions of one parameter independently. Read off the path conditions of every decoder
+// whose struct carries the three header fields (engine E2).
+func checkDCMIVersionGuards(c *Ctx, r *Report) {
+	r.Rule("dcmi-version-guards", "the Get DCMI Capabilities Info decoders choose between the v1.0 and the v1.1/v1.5 layout by major and minor version (bytes 0 and 1), never by the parameter revision (byte 2)", 2)
+	tp := c.TPkg("pkg/dcmi")
+	if tp == nil {
+		r.Lost("pkg/dcmi")
+		return
+	}
+	names := tp.Scope().Names()
+	sort.Strings(names)
+	for _, n := range names {
+		tn, ok := tp.Scope().Lookup(n).(*types.TypeName)
+		if !ok {
+			continue
+		}
+		nt, ok := tn.Type().(*types.Named)
+		if !ok {
+			continue
+		}
+		st, ok := nt.Underlying().(*types.Struct)
+		if !ok {
+			continue
+		}
+		// carries the header: an embedded struct with MajorVersion, MinorVersion and Revision
+		carries := false
+		for i := 0; i < st.NumFields(); i++ {
+			f := st.Field(i)
+			if !f.Embedded() {
+				continue
+			}
+			if hs, ok := f.Type().Underlying().(*types.Struct); ok {
+				got := map[string]bool{}
+				for j := 0; j < hs.NumFields(); j++ {
+					got[hs.Field(j).Name()] = true
+				}
+				if got["MajorVersion"] && got["MinorVersion"] && got["Revision"] {
+					carries = true
+				}
+			}
+		}
+		if !carries {
+			continue
+		}
+		fn := c.MethodOf(nt, "DecodeFromBytes")
+		if fn == nil || fn.Blocks == nil {
+			continue
+		}
+		evs, why := extractEvents(c, fn, nil)
+		if why != "" {
+			r.Unk(nt.Obj().Name()+".DecodeFromBytes|paths", fn.Pos(), why)
+			continue
+		}
+		usesVersion, usesRevision := false, false
+		for _, le := range evs {
+			for _, cnd := range le.Cond {
+				if strings.Contains(cnd, "d0[") || strings.Contains(cnd, "d1[") {
+					usesVersion = true
+				}
+				if strings.Contains(cnd, "d2[") {
+					usesRevision = true
+				}
+			}
+		}
+		if !usesVersion && !usesRevision {
+			continue // one layout for every version
+		}
+		r.Check(!usesRevision, nt.Obj().Name()+".DecodeFromBytes|layout guard", fn.Pos(), "guarded by major/minor version only", "the layout is selected by the parameter revision (byte 2): a v1.5 BMC reporting revision 1, or a v1.0 BMC reporting revision 2, is decoded in the wrong layout (DCMI 1.5 §6.1.1: the layout follows the specification conformance in bytes 0 and 1)")
+	}
+}
